@@ -1285,19 +1285,22 @@ ldb_versions_write_snapshot(ldb_versions_t *vset, ldb_writer_t *log) {
 #ifdef LCDB_VERIF
 static void
 verif_layout(const char *name, const ldb_versions_t *vset,
-             const ldb_version_t *v, int reused) {
+             const ldb_version_t *v, int reused,
+             uint64_t enext, uint64_t eseq) {
   int level, n = 0;
   size_t i;
 
   LCDB_BEGIN(name);
   LCDB_ADD(("\"ver\":%d,\"log\":%lu,\"prevlog\":%lu,\"nextfile\":%lu,"
-            "\"lastseq\":%lu,\"manifest\":%lu,\"reused\":%d,\"files\":[",
+            "\"lastseq\":%lu,\"manifest\":%lu,\"reused\":%d,"
+            "\"enext\":%lu,\"eseq\":%lu,\"files\":[",
             LCDB_NEWID(v),
             (unsigned long)vset->log_number,
             (unsigned long)vset->prev_log_number,
             (unsigned long)vset->next_file_number,
             (unsigned long)vset->last_sequence,
-            (unsigned long)vset->manifest_file_number, reused));
+            (unsigned long)vset->manifest_file_number, reused,
+            (unsigned long)enext, (unsigned long)eseq));
 
   for (level = 0; level < LDB_NUM_LEVELS; level++) {
     for (i = 0; i < v->files[level].length; i++) {
@@ -1408,7 +1411,8 @@ ldb_versions_apply(ldb_versions_t *vset, ldb_edit_t *edit, ldb_mutex_t *mu) {
     vset->prev_log_number = edit->prev_log_number;
 
 #ifdef LCDB_VERIF
-    verif_layout("VersionInstall", vset, v, fname[0] != 0);
+    verif_layout("VersionInstall", vset, v, fname[0] != 0,
+                 edit->next_file_number, edit->last_sequence);
 #endif
   } else {
     LCDB_EV(("ApplyFailed", "\"rc\":%d,\"newmanifest\":%d", rc, fname[0] != 0));
@@ -1661,7 +1665,8 @@ ldb_versions_recover(ldb_versions_t *vset, int *save_manifest) {
     }
 
 #ifdef LCDB_VERIF
-    verif_layout("RecoverManifest", vset, v, !*save_manifest);
+    verif_layout("RecoverManifest", vset, v, !*save_manifest,
+                 next_file, last_sequence);
 #endif
   } else {
     ldb_log(vset->options->info_log,
